@@ -20,6 +20,7 @@ import copy
 
 import gen
 import spell
+import spell_corr
 import spell_tx
 import vcore
 from vcore import Failure
@@ -335,6 +336,7 @@ def exhaustive(ctx):
 
 def explore(ctx, factor, bs):
     rng = ctx.rng
+    spell_corr.run(ctx, ctx.pick(2500, 40000) * factor)
     exhaustive(ctx)
     n = ctx.pick(700, 20000) * factor
     for i in range(n):
